@@ -23,6 +23,8 @@ PROPS = {
     'C06': {'design_ref': '§C05', 'not_decided': ['recognising the revoked transaction', 'consensus validity of the justice transaction as a whole (scripts, witnesses; the signing key, the signed script operands and the claim per output are under contract, the cryptography is uninterpreted)', 'the re-issuing loop of OnchainTxHandler (only the bump arithmetic feerate_bump / get_height_timer is under contract)', 'reload']},
     'C07': {'design_ref': '§C07', 'not_decided': ['which outputs are claimed', 'consensus validity/finality', 'get_claimable_balances conservation', 'anchors with external inputs', 'OutputSweeper scheduling and signing of sweeps (the change / feerate arithmetic and the inputs are under contract)']},
     'C08': {'design_ref': '§C08', 'not_decided': ['that the monitor evaluates the (sliced, proved) go-on-chain test for every HTLC of every commitment and acts on it', 'automatic fail-back on new blocks', 'fail-back only after burial']},
+    'C09': {'design_ref': '§C09', 'not_decided': ['that every state-advancing handler ends in monitor_updating_paused and returns the update instead of messages', 'that ChannelManager releases held messages only after every in-flight update of the channel completed (handle_new_monitor_update / channel_monitor_updated / handle_channel_resumption)', 'gap-free delivery order of updates to chain::Watch across the blocked-update queue and the two sites that do not increment (force_shutdown, free_holding_cell_htlcs)', 'deferred ChainMonitor mode (flush)', 'all completion orders and delays: a whole-history statement, only the per-call bookkeeping is decided']},
+    'C10': {'design_ref': '§C10', 'not_decided': ['the crash-point quantifier: every prefix of the sequence of durable writes (whole-history statement)', 'deserialization of ChannelManager as a whole', 'replay of in-flight monitor updates and of pending claims', 'reconstruction of payments and HTLC resolutions from monitors', 'persistence and re-delivery of events', 'process_background_events ordering']},
     'C11': {'design_ref': '§C11', 'not_decided': ['independence from the delivery style', 'idempotent re-delivery', 'events already acted upon']},
     'C12': {'design_ref': '§C12', 'not_decided': ['round trip of ChannelManager, ChannelMonitor (only the length-prefixed loop bounds and the legacy event records are under contract), ChannelMonitorUpdate, graph, scorer, sweeper', 'behavioural equivalence after reload']},
     'C13': {'design_ref': '§C12', 'not_decided': ['messages with keys/signatures', 'feature vectors', 'decoding totality on arbitrary-length input']},
